@@ -447,7 +447,7 @@ func runHistory(in input, mutateDefaults bool) (driver.Result, []string) {
 	var direct []string
 	d, err := dials.Config(ctx, cfg, s0, s1)
 	if err != nil {
-		return driver.Result{Coq: "History [] 0 []", Kind: "history", Direct: []string{"Config failed: " + err.Error()}}, nil
+		return driver.Result{Coq: "History FNil [] 0 0 [] []", Kind: "history", Direct: []string{"Config failed: " + err.Error()}}, nil
 	}
 	if mutateDefaults {
 		// the caller keeps using its own struct after Config returned and assigns
@@ -507,6 +507,11 @@ func runHistory(in input, mutateDefaults bool) (driver.Result, []string) {
 			}
 		}
 	}
+	// the source values in force at every stacking: [static value; current value of the watcher]
+	evTerms := make([]string, len(versions))
+	for i := range versions {
+		evTerms[i] = fmt.Sprintf("[%d; %d]", w.PtrID(inputs[1]), w.PtrID(inputs[2+i]))
+	}
 	vcanon := make([]string, len(versions))
 	for i, v := range versions {
 		vcanon[i] = graphwalk.Canon(v)
@@ -551,7 +556,8 @@ func runHistory(in input, mutateDefaults bool) (driver.Result, []string) {
 		}
 	}
 	return driver.Result{
-		Coq:  fmt.Sprintf("History %s %d %s", coqfmt.List(w.Objs(0)), nIn, coqfmt.List(vterms)),
+		Coq: fmt.Sprintf("History %s %s %d %d %s %s", rty.FieldsTerm(reflect.TypeOf(HCfg{})), coqfmt.List(w.Objs(0)), nIn,
+			w.PtrID(inputs[0]), coqfmt.List(evTerms), coqfmt.List(vterms)),
 		Kind: "history", Nontrivial: planted > 0 && in.Updates >= 1, Direct: direct, Tags: tags,
 	}, vcanon
 }
